@@ -149,6 +149,8 @@ INDENTS = ["", "  ", "    ", "      ", "\t", " \t", "        ", "\x0c  "]
 BODIES = ["if x:", "y", "else:", "# c", ""]
 CORE_OPTS = [(i, b) for i in ("", "  ", "    ", "\t", "\t\t") for b in ("if x:", "y")]
 RICH_OPTS = [(i, b) for i in INDENTS for b in BODIES]
+# column arithmetic of leading whitespace: form feed resets the column, a tab rounds it up to a multiple of 8 (round 5: R5_C01_B)
+WS_OPTS = [(i, b) for i in ("", "  ", "\x0c  ", "\x0c", " \x0c  ", "\t", "  \t", "        ") for b in ("if x:", "y")]
 
 
 def indent_skeleton(chk, oracles_, nlines, opts, wall=None, tokens_only=False, label="core"):
